@@ -91,6 +91,16 @@ def t0_of(m):
     return Time(T0.isot, scale=m.get("scale", "utc"))
 
 
+def sky_frames_ok(coord, case, label, fails):
+    """SkyCoord members keep the frame (with its attributes) they were given in"""
+    subs = getattr(coord, "_table_coords", [coord])
+    for k, (m, sub) in enumerate(zip(case["members"], subs)):
+        if m["kind"].startswith("sky"):
+            want = build_member(m, k).table.frame
+            if not isinstance(sub.table, SkyCoord) or not sub.table.frame.is_equivalent_frame(want):
+                fails.append(f"{label}: SkyCoord member {k} is in {getattr(sub.table, 'frame', None)!r}, it was given in {want!r}")
+
+
 def time_instants_ok(coord, case, positions_of, label, fails):
     """Every Time member of `coord` (a table coordinate made from the case's members by slicing or
     interpolating) must hold, as *instants*, the source table read at `positions_of(member input index)`."""
@@ -146,11 +156,17 @@ def build_member(m, k):
         return QuantityTableCoordinate(np.array(m["tables"][0]) * u.Unit(m["unit"]), names=f"q{k}", physical_types=f"custom:q{k}")
     if kind == "quantity2":
         un = u.Unit(m["unit"])
-        return QuantityTableCoordinate(np.array(m["tables"][0]) * un, np.array(m["tables"][1]) * un,
+        # the tables of one coordinate may be given in different, equivalent units (the second here, for every second
+        # member): the numbers of `tables` are the physical values in the first table's unit
+        alt = {"m": u.cm, "s": u.ms, "deg": u.arcmin}.get(m["unit"]) if k % 2 == 0 else None
+        second = (np.array(m["tables"][1]) * un).to(alt) if alt is not None else np.array(m["tables"][1]) * un
+        return QuantityTableCoordinate(np.array(m["tables"][0]) * un, second,
                                        names=[f"qa{k}", f"qb{k}"], physical_types=[f"custom:qa{k}", f"custom:qb{k}"])
     if kind == "time":
         return TimeTableCoordinate(t0_of(m) + np.array(m["tables"][0]) * u.s, names=f"t{k}", physical_types="time")
-    sc = SkyCoord(np.array(m["tables"][0]) * u.deg, np.array(m["tables"][1]) * u.deg, frame="icrs")
+    # ICRS, or (every third member) a frame with a non-default attribute
+    sc = SkyCoord(np.array(m["tables"][0]) * u.deg, np.array(m["tables"][1]) * u.deg,
+                  **({"frame": "icrs"} if k % 3 != 1 else {"frame": "fk5", "equinox": "J1975"}))
     return SkyCoordTableCoordinate(sc, mesh=(kind == "sky2mesh"), names=[f"lon{k}", f"lat{k}"],
                                    physical_types=sky_ptypes(k))
 
@@ -323,6 +339,7 @@ def run(case):
             sc = coord[tuple(items)] if len(items) > 1 else coord[items[0]]
             sw = sc.wcs
             declared_ok(sw, case, f"coord[{items}]", fails)
+            sky_frames_ok(sc, case, f"coord[{items}]", fails)
             sl_vals = []
             for _ in range(8):
                 q = [float(rng.randrange(n)) if rng.random() < 0.5 or n == 1 else rng.randrange(n - 1) + rng.choice([0.25, 0.5]) for n in newlens]
@@ -452,6 +469,8 @@ def run(case):
             it_obs = {"grids": grids, "vals": it_vals}
             if not fails:
                 time_instants_ok(ic, case, lambda p: grids[p], f"interpolate({grids})", fails)
+            if not fails:
+                sky_frames_ok(ic, case, f"interpolate({grids})", fails)
             tags.append("interpolate" + ("-unequal-grids" if len({len(g) for g in grids}) > 1 else ""))
         except Exception as e:
             fails.append(("[quantity2 grids of different lengths] " if unequal_q2 else "[sky2mesh grids of different lengths] " if unequal_mesh else "") +
